@@ -66,6 +66,7 @@ ASSUMPTIONS = [
     "onMessage is not re-entered while user code it called is still running",
     "request ids pairwise distinct is proved for histories that draw at most 2^53 ids from one session object",
     "INVOCATION for an existing registration, CHALLENGE/ABORT and the lifecycle callbacks are modelled (C06, C10) but not exercised by this check's generators",
+    "the object form register(obj) (one REGISTER per decorated endpoint, each with exactly its own options) is checked on the code by part B of this harness (harness/workers/c04_decorated.py), not modelled in Lean",
 ]
 MANIFEST_ENTRY = {
     "technique": "Lean 4 theorems by induction over arbitrary event histories of an executable session model + "
@@ -316,6 +317,19 @@ DIRECT = [
 ]
 
 
+def part_b(ctx, res):
+    """register(obj): one REGISTER per decorated endpoint, in member-name order, each with exactly its own options"""
+    import json
+    p = core.run_py(core.VERIF / "harness" / "workers" / "c04_decorated.py", [])
+    if p.returncode != 0:
+        raise RuntimeError("c04_decorated failed: " + p.stderr[-2000:])
+    o = json.loads(p.stdout)
+    res.evaluations += o["cases"]
+    res.count("decorated-object-cases", o["cases"])
+    for v in o["violations"]:
+        res.violations.append(core.Violation(v["key"], v["what"], v))
+
+
 def run(ctx):
     res = core.Result()
     res.rule = ("script = event tokens for one session object: open, WELCOME, established subscriptions/registrations, "
@@ -358,4 +372,5 @@ def run(ctx):
     res.notes.append("direct expectations violated: " + (", ".join(hit) or "none"))
     res.notes.append("send failure: call/publish drop their record; subscribe/register/unsubscribe/unregister keep an "
                      "orphan record whose future was never returned (failed at session end) — modelled and compared")
+    part_b(ctx, res)
     return res
